@@ -48,17 +48,28 @@ func (w *ResponseWriter) WriteHeader(code int) {
 }
 
 // Flush implements the standard http.Flusher interface.
+// Flushing a response whose status has not been written yet sends the implicit 200, like Write does.
 func (w *ResponseWriter) Flush() {
 	if flusher, ok := w.Origin.(http.Flusher); ok {
+		if w.Status == 0 {
+			w.Status = http.StatusOK
+		}
 		flusher.Flush()
 	}
 }
 
 // FlushError attempts to invoke FlushError() of the standard http.ResponseWriter.
+// Flushing a response whose status has not been written yet sends the implicit 200, like Write does.
 func (w *ResponseWriter) FlushError() error {
 	if flusher, ok := w.Origin.(interface{ FlushError() error }); ok {
+		if w.Status == 0 {
+			w.Status = http.StatusOK
+		}
 		return flusher.FlushError()
 	} else if flusher, ok := w.Origin.(http.Flusher); ok {
+		if w.Status == 0 {
+			w.Status = http.StatusOK
+		}
 		flusher.Flush()
 	}
 	return nil
